@@ -57,7 +57,7 @@ func (p Plan) cfg() string {
 		rule = "equal"
 	}
 	var b strings.Builder
-	fmt.Fprintf(&b, "CONSTANTS\n  LenRule = %q\n  StoreRule = \"last\"\n  Flavours = %s\n  NSet = %s\n  TSel = %s\n  History = %s\n  Domain = %q\n  SampleNum = %d\n  Emit = %s\n",
+	fmt.Fprintf(&b, "CONSTANTS\n  LenRule = %q\n  StoreRule = \"last\"\n  MissRule = \"reject\"\n  Flavours = %s\n  NSet = %s\n  TSel = %s\n  History = %s\n  Domain = %q\n  SampleNum = %d\n  Emit = %s\n",
 		rule, strSet(p.Flavours), intSet(p.NSet), intSet(tsel), strings.ToUpper(fmt.Sprint(p.History)), dom, p.Sample, strings.ToUpper(fmt.Sprint(p.Emit)))
 	fmt.Fprintf(&b, "SPECIFICATION %s\nINVARIANT Design\nINVARIANT EmitInv\nCHECK_DEADLOCK FALSE\n", spec)
 	return b.String()
@@ -79,7 +79,7 @@ const mcModule = "MCgen_SigRule"
 var mcBody = []byte("---- MODULE " + mcModule + " ----\nEXTENDS SigRuleMC\n====\n")
 
 var internTab = map[string]string{"ok": "ok", "garbage": "garbage", "tampered": "tampered", "": "", "instance": "instance",
-	"eon": "eon", "slot": "slot", "txptr": "txptr", "ids": "ids", "gnosis": "gnosis", "service": "service", "idlen": "idlen", "S": "S", "X": "X"}
+	"eon": "eon", "slot": "slot", "txptr": "txptr", "ids": "ids", "gnosis": "gnosis", "service": "service", "idlen": "idlen", "S": "S", "X": "X", "O": "O", "before": "before", "after": "after", "none": "none"}
 
 func intern(s string) string {
 	if v, ok := internTab[s]; ok {
@@ -101,7 +101,7 @@ func parseCase(raw string) (Case, error) {
 	if err := cs.wellFormed(); err != nil {
 		return cs, fmt.Errorf("bad CASE %s: %v", s, err)
 	}
-	cs.F, cs.Mut = intern(cs.F), intern(cs.Mut)
+	cs.F, cs.Mut, cs.Key = intern(cs.F), intern(cs.Mut), intern(cs.Key)
 	for i := range cs.Sigs {
 		cs.Sigs[i].K, cs.Sigs[i].O = intern(cs.Sigs[i].K), intern(cs.Sigs[i].O)
 	}
@@ -169,13 +169,16 @@ func (cs *Case) wellFormed() error {
 	if cs.N < 1 || cs.N > MaxMembers || cs.T < 0 {
 		return fmt.Errorf("n=%d t=%d", cs.N, cs.T)
 	}
-	if cs.Signers == nil || cs.Sigs == nil || len(cs.Ann) == 0 || len(cs.Ann) > 4 {
+	if cs.Signers == nil || cs.Sigs == nil || cs.Ann == nil || len(cs.Ann) > 4 {
 		return fmt.Errorf("missing list")
 	}
 	for _, a := range cs.Ann {
-		if a != "S" && a != "X" {
+		if a != "S" && a != "X" && a != "O" {
 			return fmt.Errorf("announcement %q", a)
 		}
+	}
+	if cs.Key != "before" && cs.Key != "after" && cs.Key != "none" {
+		return fmt.Errorf("key %q", cs.Key)
 	}
 	for _, v := range cs.Signers {
 		if v < 0 || v > cs.N {
@@ -198,7 +201,7 @@ func (cs *Case) wellFormed() error {
 }
 
 // Key is a canonical rendering of the abstract case (used for ordering, dedup and counting).
-func (cs *Case) Key() string {
+func (cs *Case) CKey() string {
 	b, _ := json.Marshal(cs)
 	return string(b)
 }
@@ -280,8 +283,8 @@ func parseTLARecord(s string) (*Case, error) {
 	if cs.Sigs == nil {
 		cs.Sigs = []Sig{}
 	}
-	if len(cs.Ann) == 0 {
-		cs.Ann = []string{"S"}
+	if cs.Ann == nil {
+		cs.Ann = []string{}
 	}
 	return &cs, nil
 }
